@@ -59,11 +59,11 @@ TESTED_NOT_PROVED = ["prune_automorphisms=True: WHICH mapping represents a host 
                      "mcs_mol: WHICH isomorphism maps a matched component onto its partner is VF2's choice. Since round 5 the combined mapping is an "
                      "INPUT of the model (from networkx alone), validated against the model's own greedy component pairing with the decision "
                      "procedure ci_check (C12_ci_check_decides, C12_mcs_mol_choice_valid, C12_history_mcs_mol): single calls and history steps on "
-                     "fresh graph objects compare the full mapping; on objects edited in place and through the ITS facade only the pairing, the "
-                     "size and the number of matcher objects (run_mcs_mol)",
+                     "fresh graph objects (also through the ITS facade, C12_facade_mcs_mol) compare the full mapping; on objects edited in place only "
+                     "the pairing, the size and the number of matcher objects (run_mcs_mol)",
                      "its_decompose (synkit.Graph.ITS, not anchored): the four sides are inputs of the model, computed by the generator independently",
                      "__repr__ / help / __iter__ of the matcher objects: checked by the adapter against the stored result after every step"]
-LEVEL_TEXT = ("Machine-checked proof (Coq, 48 theorems in coq/props/C12.v, all closed under the global context) over an executable model "
+LEVEL_TEXT = ("Machine-checked proof (Coq, 49 theorems in coq/props/C12.v, all closed under the global context) over an executable model "
               "of MCSMatcher._search_subgraphs / _prune_graph / _prepare_orientation / find_common_subgraph / get_mappings (both copies of "
               "the matcher), for all pairs of graphs with distinct node ids: every returned mapping (both modes, all three directions, after "
               "orientation swap and wildcard pruning) is a function, injective, label-preserving, and preserves presence AND order of every "
@@ -407,7 +407,8 @@ def _sub(case, st):
     # adjacency order, and with it VF2's enumeration order, is not reproducible from the case -- such steps stay external)
     d["auto_tracked"] = bool(d["prune_auto"] and case["variant"] == "matcher" and st.get("call", "fcs") == "fcs"
                              and st.get("src_g1") is None and st.get("src_g2") is None)
-    d["mol_tracked"] = bool(st.get("src_g1") is None and st.get("src_g2") is None and st.get("call") == "mcs_mol")
+    d["mol_tracked"] = bool(st.get("src_g1") is None and st.get("src_g2") is None
+                            and (st.get("call") == "mcs_mol" or (st.get("call") == "rc_side" and st.get("mol"))))
     if st.get("call") in ("mcs_mol", "component"):
         d["mode"] = st["call"]
     if st.get("call") == "rc_side" and st.get("component"):
@@ -790,14 +791,15 @@ def _coq_history(case):
                                                                 _coq_rgraph(_nx_prune_order(st["g2"], sub), T, needed), cbool(st["mcs"]), ch))
                 opaque.discard(ci)
                 continue
-            if (sub.get("mode") == "mcs_mol" and sub.get("mol_tracked") and call == "mcs_mol" and not cfg.get("prune_auto")
-                    and _in_domain(sub)):
+            rc_mol = bool(call == "rc_side" and st.get("mol") and sub.get("mol_tracked") and _in_domain(dict(sub, prune_auto=False)))
+            if (sub.get("mode") == "mcs_mol" and sub.get("mol_tracked") and call == "mcs_mol"
+                    and _in_domain(dict(sub, prune_auto=False))):        # (mcs_mol does not look at prune_automorphisms)
                 ch = clist([cpair(cN(a), cN(b)) for a, b in _vf2_mol_choice(sub)])
                 ops.append("HCall %d (MFindMol %s %s %s)" % (ci, _coq_rgraph(_nx_prune_order(st["g1"], sub), T, needed),
                                                             _coq_rgraph(_nx_prune_order(st["g2"], sub), T, needed), ch))
                 opaque.discard(ci)
                 continue
-            if cfg.get("prune_auto") or sub.get("mode") == "mcs_mol":
+            if (cfg.get("prune_auto") or sub.get("mode") == "mcs_mol") and not rc_mol:
                 t = coq_case(dict(sub, auto_tracked=False, mol_tracked=False))
                 if t is None:
                     return None
@@ -814,6 +816,19 @@ def _coq_history(case):
             if call in ("rc_its", "component"):
                 sd, comp = "SIts", call == "component"
                 x = dict(rc_1=g1, rc_2=g2, rc_l1=e, rc_r1=e, rc_l2=e, rc_r2=e)
+            elif rc_mol:
+                # mcs_mol=True through the facade: the same validated-input treatment on the sides the facade selects
+                sd = _SIDE_CODE[st["side"]]
+                x = dict(rc_1=e, rc_2=e, rc_l1=e, rc_r1=e, rc_l2=e, rc_r2=e)
+                if "sides" in st:
+                    for k_ in ("l1", "r1", "l2", "r2"):
+                        x["rc_" + k_] = _coq_rgraph(_nx_prune_order(st["sides"][k_], sub), T, needed)
+                a_, b_ = {"SR": ("rc_r1", "rc_r2"), "SL": ("rc_l1", "rc_l2"), "SOp": ("rc_r1", "rc_l2")}[sd]
+                x[a_], x[b_] = g1, g2
+                ch = clist([cpair(cN(a), cN(b)) for a, b in _vf2_mol_choice(sub)])
+                ops.append("HCall %d (MRcMol {| rc_1 := %s; rc_2 := %s; rc_l1 := %s; rc_r1 := %s; rc_l2 := %s; rc_r2 := %s |} %s %s)"
+                           % (ci, x["rc_1"], x["rc_2"], x["rc_l1"], x["rc_r1"], x["rc_l2"], x["rc_r2"], sd, ch))
+                continue
             elif call == "rc_side":
                 sd, comp = _SIDE_CODE[st["side"]], bool(st.get("component", False))
                 x = dict(rc_1=e, rc_2=e, rc_l1=e, rc_r1=e, rc_l2=e, rc_r2=e)
